@@ -106,6 +106,30 @@ def _run(ctx, quick, pool):
                 ctx.violation(key, msg, replay=replay)
         for beh, hdr, ev in out["traces"]:
             traces.append((len(traces) + 1, hdr, ev, job, beh))
+    # ---- 3b. metamorphic: the dt grid must not depend on the process default dtype ------------------------------
+    dd_labels = ("euler", "milstein_ito", "srk", "midpoint", "heun", "reversible_heun", "log_ode_foster") if quick \
+        else tuple(loop.FIXED_METHODS)
+    dd_cfgs = loop.solver_configs(dtypes=("float64",), labels=dd_labels)
+    if quick:      # quick: every (method, noise) once, alternating tensor / list ts
+        by = {}
+        for c in dd_cfgs:
+            by.setdefault((c["label"], c["noise"]), []).append(c)
+        dd_cfgs = [v[(n + ctx.seed) % len(v)] for n, (k, v) in enumerate(sorted(by.items()))]
+    dd_jobs = [dict(c=c, seed=ctx.seed, dts=[0.1, 0.05, 1e-2], ts_list=[[0.0, 0.13, 0.37, 0.5], [0.25, 0.9]])
+               for c in dd_cfgs]
+    n_dd = 0
+    for job, out in zip(dd_jobs, pool.imap(loop.c12_default_dtype_group, dd_jobs, chunksize=1)):
+        for k in out["keys"]:
+            n_dd += 1
+            ctx.case(k, trace=False)
+        for d in out["drift"][:1]:
+            ctx.drift(d)
+        for key, msg, replay in out["fails"]:
+            kk = tuple(sorted(key.items()))
+            seen_fail[kk] = seen_fail.get(kk, 0) + 1
+            if seen_fail[kk] <= 2:
+                ctx.violation(key, msg, replay=replay)
+    ctx.notes["default_dtype_independence_pairs"] = n_dd
     tmark["real_runs"] = round(time.time() - t0_, 1)
     t0_ = time.time()
     # recorded traces of real runs validated by TLC
@@ -143,6 +167,9 @@ def _run(ctx, quick, pool):
                    else "every solver configuration")
                 + " out of method x noise type x {float32,float64} x {tensor ts, list ts}; a case is non-trivial when at "
                   "least one output lies strictly inside a step")
+    ctx.rule += ("; plus a metamorphic group: float64 problems with non-dyadic dt in {0.1, 0.05, 0.01} (Python float) and "
+                 "non-dyadic ts (tensor and list) run under process default dtype float64 and float32: identical Brownian "
+                 "queries, step counts and outputs")
     ctx.exhaustive = (not quick)
     ctx.assumptions += [
         "ticks map to t0 + u*2^-j (j in 3..5, t0 in {0, .25, -.5, 1}) so curr_t + dt accumulates exactly in float32/64",
